@@ -4,6 +4,7 @@
 SPECIFICATION Spec
 CONSTANTS MaxLen = 5
 EmitMod = 1
+Prefix <- PrefixNone
 Emit = FALSE
 Vocab <- VocabQuick
 INVARIANTS TypeOK DesignStrict
